@@ -350,6 +350,10 @@ def opDec (args : List String) (impl : String) : Verdict :=
 
 /-- `decr flavour sink blob bs ranges sources stream fill` -/
 def opDecr (args : List String) (impl : String) : Verdict :=
+  -- optional 9th argument `c<size>`: the receiver's outboard claims this size
+  let (args, claimedArg) : List String × Option Nat := match args with
+    | [a, b, c, d, e, f, g, h, cl] => ([a, b, c, d, e, f, g, h], (cl.drop 1).toString.toNat?)
+    | _ => (args, none)
   match args with
   | [fl, kind, b, bs, rs, sources, expr, fill] =>
     match flavour? fl, storeKind? kind, blob b, bs.toNat?, parseNatList rs, buildSources sources, fill.toNat? with
@@ -358,9 +362,10 @@ def opDecr (args : List String) (impl : String) : Verdict :=
       | none => bad "stream"
       | some stream =>
         let root := hashSubtree hf 0 d true
-        let tree : Tree := ⟨d.length, bs⟩
+        let claimed := claimedArg.getD d.length
+        let tree : Tree := ⟨claimed, bs⟩
         let ob0 := List.replicate tree.outboardSize (UInt8.ofNat 0xAA)
-        let target0 := List.replicate d.length (UInt8.ofNat fill)
+        let target0 := List.replicate (max d.length (min claimed (2 ^ 20))) (UInt8.ofNat fill)
         let sink : Sink HB := { ob := { kind, root, tree, data := ob0 }, target := target0 }
         let run := decodeRanges hf fl stream ranges sink
         let term := match run.terminal with
@@ -369,7 +374,7 @@ def opDecr (args : List String) (impl : String) : Verdict :=
         let m := s!"{term} {dig run.sink.target} {dig run.sink.ob.data} src={srcDigs srcs} rest={restS}"
         -- an honest stream, possibly followed by trailing bytes `+x<hex>`
         let trailing : Option Nat :=
-          if sources != s!"{b}/{bs}/{rs}" then none
+          if sources != s!"{b}/{bs}/{rs}" || claimed != d.length then none
           else if expr == "0:0:$" then some 0
           else if expr.startsWith "0:0:$+x" && !(expr.contains '~') then some (((expr.drop 7).toString.length) / 2)
           else none
@@ -378,6 +383,8 @@ def opDecr (args : List String) (impl : String) : Verdict :=
           | [iterm, _itgt, _iob, isrc, irest] =>
             if isrc != s!"src={srcDigs srcs}" then some "source encodings differ"
             else if iterm == "panic" then some "decode_ranges panicked"
+            else if iterm == "Done" && claimed != d.length && Spec.selected claimed ranges (Spec.nChunks claimed - 1) then
+              some "decode_ranges with a size-proof query completed for a wrong claimed size"
             else
               match trailing with
               | some t =>
@@ -401,7 +408,7 @@ def opDecr (args : List String) (impl : String) : Verdict :=
               match impl.splitOn " " with
               | [_, itgt, _, _, _] => if itgt != dig expT then some "target differs from blob-on-selected / untouched-elsewhere" else none
               | _ => none
-            else if sources == s!"{b}/{bs}/{rs}" then
+            else if sources == s!"{b}/{bs}/{rs}" && claimed == d.length then
               -- C09 at the level of the driver: an honest stream cut at byte k / with byte p altered must be
               -- answered with the TYPED error naming the item that contains that byte
               let honestItems := Spec.items hf d bs ranges
